@@ -26,6 +26,27 @@ Proof.
   apply table_cache_ok_spec; [exact C18_gen_cache_effects_adequate | exact Hf | exact Hn].
 Qed.
 
+(* the number fast paths (x + 2., x - 2., x * 2., x / 2., x // 2., x % 2.) build their result as a clone that keeps the
+   cache of x and then replace its values: whatever they do, the returned object's cache is coherent *)
+Theorem C18_gen_derived_effects_adequate : table_derived_ok gen_table = true.
+Proof. vm_compute. reflexivity. Qed.
+
+Theorem C18_gen_fast_path_results_coherent :
+  forall (X V : Type) (view : key -> (field -> X) -> V),
+    (forall k a b, (forall f, dep k f = true -> a f = b f) -> view k a = view k b) ->
+    forall f p (s s' : cstate X V),
+      In f gen_table -> is_derived f = true -> In p (fpaths f) -> returns p = true ->
+      cpath X V view (callrel X V view gen_table FUEL) p s s' -> coherent X V view s'.
+Proof.
+  intros X V view Hd f p s s' Hf Hn Hp Hr Hrun.
+  eapply derived_adequate; try eassumption.
+  pose proof C18_gen_derived_effects_adequate as H. unfold table_derived_ok in H.
+  apply andb_prop in H. destruct H as [H _]. rewrite forallb_forall in H.
+  apply H. apply filter_In. split; assumption.
+Qed.
+
 Print Assumptions C18_gen_table_complete.
 Print Assumptions C18_gen_cache_effects_adequate.
 Print Assumptions C18_gen_mutators_keep_cache_coherent.
+Print Assumptions C18_gen_derived_effects_adequate.
+Print Assumptions C18_gen_fast_path_results_coherent.
